@@ -79,21 +79,33 @@ def canonical_lines(comps, deps):
 
 
 def run_episode(spec, uid="E"):
+    events = []
+    for _ in iter_episode(spec, uid, None, events):
+        pass
+    return events
+
+
+def iter_episode(spec, uid="E", shared=None, events=None):
     from pytestarch import DiagramRule
     from pytestarch.diagram_extension.diagram_parser import PumlParser
 
     tmp = tempfile.mkdtemp(prefix="verif-puml-", dir="/dev/shm" if os.path.isdir("/dev/shm") else None)
-    events = []
-    reals = {}
+    events = events if events is not None else []
+    reals = shared if shared is not None else {}
+    logged = set()
+    dobjs = {}
     try:
         world = World(spec["world"]["modules"], spec["world"]["imports"]) if spec.get("world") else None
 
         def real(a):
-            if a not in reals:
-                reals[a] = build_real(world)
+            k = (a, "ident")
+            if k not in reals:
+                reals[k] = (build_real(world), dotted, None)
+            if k not in logged:
+                logged.add(k)
                 events.append({"k": "arch", "a": f"{uid}.A{a}", "first": not any(e["k"] == "arch" for e in events),
-                               **observe(reals[a])})
-            return reals[a]
+                               **observe(reals[k][0])})
+            return reals[k][0]
 
         for n, it in enumerate(spec["items"]):
             # the file system is part of the session state: a few paths are rewritten over and over, so every parse
@@ -122,8 +134,13 @@ def run_episode(spec, uid="E"):
                 with open(path, "w") as f:
                     f.write(render(lines, True, it.get("pre", ""), it.get("post", "")))
                 before = observe(ev)
-                rule = DiagramRule(should_only_rule=it["only"]).from_file(Path(path))
-                rule = rule.with_base_module(dotted(it["base"])) if it["base"] else rule.base_module_included_in_module_names()
+                if it.get("obj") is not None and it["obj"] in dobjs:      # a persistent DiagramRule object, re-applied
+                    rule = dobjs[it["obj"]]
+                else:
+                    rule = DiagramRule(should_only_rule=it["only"]).from_file(Path(path))
+                    rule = rule.with_base_module(dotted(it["base"])) if it["base"] else rule.base_module_included_in_module_names()
+                    if it.get("obj") is not None:
+                        dobjs[it["obj"]] = rule
                 o = {"out": "pass", "real": [], "miss": [], "bad": [], "raw": ""}
                 try:
                     rule.assert_applies(ev)
@@ -138,6 +155,6 @@ def run_episode(spec, uid="E"):
                 events.append({"k": "deval", "a": f"{uid}.A{it['a']}", "rid": it.get("rid", f"D{n}"),
                                "comps": [list(c) for c in it["comps"]], "deps": [[list(a), list(b)] for a, b in it["deps"]],
                                "only": it["only"], "base": list(it["base"]), **o, "same": observe(ev) == before})
+            yield events
     finally:
         shutil.rmtree(tmp, ignore_errors=True)
-    return events
